@@ -10,6 +10,7 @@ Ops (one answer line each):
                    build [perm=<i,j,...>]    -> ok | err:dup | err:empty | err:wildcard | err:param
   L4 production    load [perm=..] (= build, through policies.yaml and TxnPoliciesAccessor.ReloadFromFile)
                    revert free|last           -> ok   (RevertToDiagnosisFree / RevertToLastLoaded)
+                   auth <method> <url>        -> keys=<authentication remedies whose credentials are sent|->
                    spoe <method> <url>        -> as disp (lunar-on-request through routing.Handler, policy mode)
                    disp <method> <url>       -> no-tree | unsupported | noop | early=<first remedy> n=<active on request leg> resp=<active on response leg>
                    req <method> <url>        -> no-tree | val=<0|1> pol=<url|-> rem=<names|-> grem=<..> diag=<..>
@@ -65,7 +66,8 @@ structure RunSt where
   pt : Option PTree := none
   declGlob : Globals := ⟨[], []⟩    -- globals as declared (`glob` is what is in force)
   loaded : List Endpoint := []      -- the endpoints of the last `load`/`build`, in their order
-  onlyFix : Bool := true           -- every remedy declared so far is a fixed-response one (type 7)
+  onlyFix : Bool := true           -- every remedy declared so far is a fixed-response or retry one (7, 8)
+  authOK : Bool := true            -- ... or an authentication one (9), at most one per remedies list
 
 def fmtBuildErr : BuildErr → String
   | .duplicate => "err:dup"
@@ -79,6 +81,9 @@ def fmtReq (pt : PTree) (g : Globals) (m url : String) : String :=
   let pol := match s.policy with | some p => pctEnc p.url | none => "-"
   let (norm, params) := if s.hasValue then (pctEnc (renderParts s.norm), fmtParams s.params) else ("%e", "-")
   s!"val={if s.hasValue then 1 else 0} pol={pol} rem={fmtNames rem} grem={fmtNames grem} diag={fmtNames dg} gdiag={fmtNames gdg} sd={if shouldDiagnose pt g m us then 1 else 0} norm={norm} params={params}"
+
+def authListOk (rs : List Remedy) : Bool :=
+  rs.all (fun r => r.type == 7 || r.type == 8 || r.type == 9) && (rs.filter (·.type == 9)).length ≤ 1
 
 def runBuild (s : RunSt) (ws : List String) : RunSt × String :=
   let perm := match kv ws "perm" with
@@ -120,11 +125,15 @@ def runStep (s : RunSt) (line : String) : RunSt × String :=
     match (kv ws "r").bind parseRemedies, (kv ws "d").bind parseDiags with
     | some rs, some ds =>
       ({ s with eps := s.eps ++ [mkEndpoint (pctDec m) (pctDec url) rs ds],
-                onlyFix := s.onlyFix && rs.all (fun r => r.type == 7 || r.type == 8) }, "ok")
+                onlyFix := s.onlyFix && rs.all (fun r => r.type == 7 || r.type == 8),
+                authOK := s.authOK && authListOk rs }, "ok")
     | _, _ => (s, "bad-op")
   | "glob" :: ws =>
     match (kv ws "r").bind parseRemedies, (kv ws "d").bind parseDiags with
-    | some rs, some ds => ({ s with glob := ⟨rs, ds⟩, declGlob := ⟨rs, ds⟩, onlyFix := s.onlyFix && rs.all (fun r => r.type == 7 || r.type == 8) }, "ok")
+    | some rs, some ds =>
+      ({ s with glob := ⟨rs, ds⟩, declGlob := ⟨rs, ds⟩,
+                onlyFix := s.onlyFix && rs.all (fun r => r.type == 7 || r.type == 8),
+                authOK := s.authOK && authListOk rs }, "ok")
     | _, _ => (s, "bad-op")
   | "build" :: ws => runBuild s ws
   | "load" :: ws => runBuild s ws     -- the same declarations through the YAML loader: same outcome
@@ -142,6 +151,14 @@ def runStep (s : RunSt) (line : String) : RunSt × String :=
         | .ok pt => ({ s with pt := some pt, glob := s.declGlob }, "ok")
         | .error e => ({ s with pt := none }, fmtBuildErr e)
       else (s, "bad-op")
+  | ["auth", m, url] =>
+    -- a forwarded request: which authentication remedies' credentials leave the engine
+    match s.pt with
+    | none => (s, "no-tree")
+    | some pt =>
+      if !s.authOK then (s, "unsupported") else
+      let ks := (authKeys pt s.glob (pctDec m) (splitURL (pctDec url))).mergeSort (fun a b => a ≤ b)
+      (s, "keys=" ++ fmtNames ks)
   | ["spoe", m, url] => runDisp s m url   -- the same dispatch, entered through the SPOE handler
   | ["req", m, url] =>
     match s.pt with
@@ -250,6 +267,11 @@ def judgeStep (s : JudgeSt) (op out : String) : JudgeSt :=
       match parseAnswer (words out) with
       | some a => { s with cur := some { r with reqs := r.reqs ++ [⟨pctDec m, pctDec url, splitURL (pctDec url), a⟩] } }
       | none => { s with bad := some ("unparsable-output:" ++ pctEnc out) }
+  | ["auth", m, url] =>
+    match s.cur, kv (words out) "keys" with
+    | some r, some ks =>
+      { s with cur := some { r with auths := r.auths ++ [⟨pctDec m, pctDec url, splitURL (pctDec url), decList ks⟩] } }
+    | _, _ => s
   | [op, m, url] =>
     if op != "disp" && op != "spoe" then s else
     match s.cur, kv (words out) "early" with
